@@ -45,6 +45,11 @@ pub enum SOp {
     GetChild { h: u8, parent: ParentSel },
     AddSnapshot { h: u8, version: u16, payload: Payload },
     GetSnapshot { h: u8 },
+    /// handle h learns the latest version, another handle adds a version on top of it, h makes
+    /// a request that does not involve the chain head (via: 0 nothing, 1 get-snapshot,
+    /// 2 add-snapshot for the version it knows, 3 get-child-version of a never-seen id, 4 of the
+    /// root), then h adds a version whose parent is the latest version it knew: must be rejected
+    StaleProbe { h: u8, via: u8 },
 }
 
 #[derive(Clone, Debug, PartialEq, Eq, Hash, Serialize, Deserialize)]
@@ -95,6 +100,7 @@ pub fn strategy(backend: Backend, max_ops: usize) -> BoxedStrategy<Case> {
             4 => (0..hmax, parent_sel()).prop_map(|(h, parent)| SOp::GetChild { h, parent }),
             2 => (0..hmax, any::<u16>(), payload(0)).prop_map(|(h, version, payload)| SOp::AddSnapshot { h, version, payload }),
             2 => (0..hmax).prop_map(|h| SOp::GetSnapshot { h }),
+            if hmax > 1 { 2 } else { 0 } => (0..hmax, 0u8..5).prop_map(|(h, via)| SOp::StaleProbe { h, via }),
         ]
         .boxed()
     } else {
@@ -102,6 +108,7 @@ pub fn strategy(backend: Backend, max_ops: usize) -> BoxedStrategy<Case> {
             6 => (0..hmax, parent_sel(), payload(large)).prop_map(|(h, parent, payload)| SOp::AddVersion { h, parent, payload }),
             4 => (0..hmax, parent_sel()).prop_map(|(h, parent)| SOp::GetChild { h, parent }),
             1 => (0..hmax).prop_map(|h| SOp::GetSnapshot { h }),
+            if hmax > 1 { 2 } else { 0 } => (0..hmax, prop_oneof![Just(0u8), Just(1u8), Just(3u8), Just(4u8)]).prop_map(|(h, via)| SOp::StaleProbe { h, via }),
         ]
         .boxed()
     };
@@ -400,7 +407,7 @@ pub fn check_case(c: &Case) -> CheckResult {
             other => format!("{other:?}"),
         });
         let h = match op {
-            SOp::AddVersion { h, .. } | SOp::GetChild { h, .. } | SOp::AddSnapshot { h, .. } | SOp::GetSnapshot { h } => *h as usize % n,
+            SOp::AddVersion { h, .. } | SOp::GetChild { h, .. } | SOp::AddSnapshot { h, .. } | SOp::GetSnapshot { h } | SOp::StaleProbe { h, .. } => *h as usize % n,
         };
         if last_h != usize::MAX && last_h != h {
             alternations += 1;
@@ -506,6 +513,93 @@ pub fn check_case(c: &Case) -> CheckResult {
                     .map_err(|e| Failure::new("add-snapshot-error", format!("{what}: add_snapshot failed: {e}")))?;
                 m.snapshots.push((vid, bytes));
                 rep.class("snapshot-stored");
+            }
+            SOp::StaleProbe { via, .. } => {
+                if n < 2 {
+                    continue;
+                }
+                let o = (h + 1) % n;
+                let add = |bk: &mut Bk, m: &mut ChainModel, hh: usize, fill: u8, what: &str| -> Result<(), Failure> {
+                    let p = m.latest();
+                    let bytes = vec![fill; 3];
+                    let nonempty = !m.versions.is_empty();
+                    let s = bk.handle(hh, nonempty)?;
+                    let (res, _) = block_on(s.add_version(p, bytes.clone()))
+                        .map_err(|e| Failure::new("add-version-error", format!("{what}: add_version failed: {e}")))?;
+                    match res {
+                        AddVersionResult::Ok(id) => {
+                            m.versions.push((id, p, bytes));
+                            Ok(())
+                        }
+                        AddVersionResult::ExpectedParentVersion(l) => {
+                            // git with a remote may reject once because of an unrelated remote commit
+                            let s = bk.handle(hh, nonempty)?;
+                            match block_on(s.add_version(p, bytes.clone()))
+                                .map_err(|e| Failure::new("add-version-error", format!("{what}: repeated add_version failed: {e}")))?
+                                .0
+                            {
+                                AddVersionResult::Ok(id) => {
+                                    m.versions.push((id, p, bytes));
+                                    Ok(())
+                                }
+                                AddVersionResult::ExpectedParentVersion(_) => Err(Failure::new(
+                                    "rejected-latest-parent",
+                                    format!("{what}: a version whose parent {p} is the latest version was rejected twice (first naming {l})"),
+                                )),
+                            }
+                        }
+                    }
+                };
+                // h adds a version itself, so the latest version it knows is its own
+                add(&mut bk, &mut m, h, 0xA0, &format!("{what}: preparation through handle {h}"))?;
+                let known = m.latest();
+                add(&mut bk, &mut m, o, 0xB0, &format!("{what}: the other handle {o}"))?;
+                match via {
+                    1 => {
+                        let s = bk.handle(h, true)?;
+                        block_on(s.get_snapshot()).map_err(|e| Failure::new("get-snapshot-error", format!("{what}: get_snapshot failed: {e}")))?;
+                    }
+                    2 => {
+                        let s = bk.handle(h, true)?;
+                        let bytes = vec![0x5A; 5];
+                        block_on(s.add_snapshot(known, bytes.clone()))
+                            .map_err(|e| Failure::new("add-snapshot-error", format!("{what}: add_snapshot failed: {e}")))?;
+                        m.snapshots.push((known, bytes));
+                    }
+                    3 => {
+                        let s = bk.handle(h, true)?;
+                        let got = block_on(s.get_child_version(Uuid::from_u128(0xdead_0000)))
+                            .map_err(|e| Failure::new("get-child-error", format!("{what}: get_child_version failed: {e}")))?;
+                        check_child(&m, Uuid::from_u128(0xdead_0000), &got, &what)?;
+                    }
+                    4 => {
+                        let s = bk.handle(h, true)?;
+                        let got = block_on(s.get_child_version(Uuid::nil()))
+                            .map_err(|e| Failure::new("get-child-error", format!("{what}: get_child_version failed: {e}")))?;
+                        check_child(&m, Uuid::nil(), &got, &what)?;
+                    }
+                    _ => {}
+                }
+                let s = bk.handle(h, true)?;
+                let (res, _) = block_on(s.add_version(known, vec![0xC0]))
+                    .map_err(|e| Failure::new("add-version-error", format!("{what}: add_version failed: {e}")))?;
+                match res {
+                    AddVersionResult::Ok(_) => crate::fail!(
+                        "accepted-wrong-parent",
+                        "{what}: handle {h} added {known}, handle {o} added {} on top of it, and then a version with parent {known} was accepted through handle {h}",
+                        m.latest()
+                    ),
+                    AddVersionResult::ExpectedParentVersion(l) => crate::ensure!(
+                        l == m.latest(),
+                        "rejection-names-wrong-version",
+                        "{what}: the rejection names {l}, the latest version is {}",
+                        m.latest()
+                    ),
+                }
+                rejections += 1;
+                read_back(&mut bk, &m, h, &format!("{what} (after the rejection)"))?;
+                reads_after_rejection += 1;
+                rep.class("stale-handle-probe");
             }
             SOp::GetSnapshot { .. } => {
                 let s = bk.handle(h, nonempty)?;
